@@ -9,6 +9,7 @@ import (
 	"go/token"
 	"go/types"
 	"os"
+	"runtime"
 	"strings"
 
 	"golang.org/x/tools/go/ssa"
@@ -1034,6 +1035,10 @@ func (in *Interp) visitInitInstr(fr *frame, instr ssa.Instruction) (k continuati
 			why = r.msg
 		case *goPanic:
 			why = "panic in initialiser: " + showValue(r.v, 0)
+		case runtime.Error:
+			// an engine limitation met while running an initialiser poisons
+			// the value being initialised; it surfaces only if that value is used
+			why = "engine limitation in package initialiser: " + r.Error()
 		default:
 			panic(r)
 		}
